@@ -261,12 +261,11 @@ def oracle_c09(line, m, impl, model):
     if "PANIC" in impl.get("tag", ""):
         return "tag parser panicked"
     want = m.get("tags")
-    if want is None:
-        return None
-    got = impl["tag"].split() if impl["tag"] != "." else []
-    got = [g.split(":", 1)[1] for g in got]
-    if got != want:
-        return f"parsed tags {got} differ from the generated ones {want}"
+    if want is not None:
+        got = impl["tag"].split() if impl["tag"] != "." else []
+        got = [g.split(":", 1)[1] for g in got]
+        if got != want:
+            return f"parsed tags {got} differ from the generated ones {want}"
     exp = m.get("clean")
     if exp is not None and impl.get("clean") not in (None,) and unhex(impl["clean"]) != exp.encode():
         return f"decision changed by an opaque value: clean gave {unhex(impl['clean'])!r}, expected {exp!r}"
@@ -849,7 +848,9 @@ def gen_front(rng, tier, pairs=None, exh_len=None):
     n = 1500 if tier == "quick" else 20000
     L = exh_len or (4 if tier == "quick" else 5)
     pairs = pairs or [("<", ">"), ("/* <", "> */"), ("aab", "bba"), ("|", "】】"), ("《", "》"), ("<!-- <", "> -->"), ("// --", "-- //"), ("<<", ">>"),
-                      ("<", "-->"), ("[", "]]]]"), ("|", "|"), ("{{{", "}")]
+                      ("<", "-->"), ("[", "]]]]"), ("|", "|"), ("{{{", "}"),
+                      # delimiters made of white space only (tags that run to the end of the line, tab-separated fields)
+                      ("#:", "\n"), ("\t", "\t"), ("\n\n", " ")]
     ex = exhaustive_cases(rng, "x", pairs[:4] if tier == "quick" else pairs, L)
     # strings over the delimiter characters plus one filler: deeper
     ex2c, ex2m = [], {}
@@ -873,6 +874,28 @@ def gen_front(rng, tier, pairs=None, exh_len=None):
         bc.append(G.dcase(f"u{i}", ds, de, s, G.Cfg()))
         bm[f"u{i}"] = {"stream": "unicode-boundaries", "mutated": True}
     return merge(corpus_cases(), ex, (ex2c, ex2m), docs, (bc, bm), chrono_limit_docs(), weird_tag_cases(rng, 400 if tier == "quick" else 6000))
+
+
+BAD_OFFSETS = ["+09:00:00", "+0900 JST", "+00:00Z", "-05:00h", "+09:00 ", "+0000+0000", "", "UTC", "+9", "Z", "+24:00", "+09:60"]
+
+
+def bad_offset_docs(rng, n, prefix="bo"):
+    """documents of expired time-limited elements under an offset string that does not parse (a well-formed offset
+    followed by something, among others): no element is ready, cleaning is the identity"""
+    cfgs = [G.Cfg("tl", "rm", off, G.NOW, ("x",)) for off in BAD_OFFSETS]
+    c, m, st = doc_cases(rng, n, prefix, kinds=["ready_tl", "ready_tl", "pending_tl", "skip", "unreg"], p_mut=0.0, cfgs=cfgs,
+                         tagnames=[("tl", "rm")])
+    for cid in m:
+        m[cid]["stream"] = "bad-offset"
+    return c, m, st
+
+
+def big_line_number_cases(prefix="big"):
+    """a listed region on line 10,000,000 and beyond: the line-number column of the list is seven characters wide, an
+    eight-digit number widens it.  Too large for the extracted model: run on the implementation and the oracle only."""
+    cfg = G.Cfg("tl", "rm", "+00:00", G.NOW, ("x",))
+    s = "\n" * 9_999_998 + 'a\n<rm name="x">y</rm>\n\t<rm name="other">\n\tz\n\t</rm>\n'
+    return [G.dcase(prefix + "0", "<", ">", s, cfg)], {prefix + "0": {"stream": "big", "impl_only": True}}
 
 
 def gen_docs(rng, tier, n_quick=2500, n_thorough=40000, **kw):
@@ -950,6 +973,19 @@ def gen_c09(rng, tier):
                         k += 1
                         cases.append(G.dcase(cid, "<", ">", src, G.Cfg()))
                         meta[cid] = {"stream": "opacity", "clean": exp if exp is not None else src}
+    # ... and the value of `name` is taken as it stands: white space inside the quotes belongs to the name
+    cfgp = G.Cfg("tl", "rm", "+00:00", G.NOW, ("x", " y "))
+    for v, ready in (("x", True), (" x", False), ("x ", False), (" x ", False), ("\nx\n", False), ("\tx", False), ("x\u00a0", False),
+                     ("\u3000x", False), (" y ", True), ("y", False), (" y", False), ("y ", False), ("  y  ", False), ("X", False)):
+        for q in "\"'":
+            for sep in TAG_SEPS[:4]:
+                for extra in ([], ["c='k'"]):
+                    a = [f"name={q}{v}{q}"] + extra
+                    src = "a<rm" + sep + sep.join(a) + ">x</rm>b"
+                    cid = f"o{k}"
+                    k += 1
+                    cases.append(G.dcase(cid, "<", ">", src, cfgp))
+                    meta[cid] = {"stream": "opacity", "clean": "ab" if ready else src}
     docs = doc_cases(rng, 300 if tier == "quick" else 3000, "d", p_mut=0.5, safe=False)
     return merge(corpus_cases(), (cases, meta), docs)
 
@@ -1019,9 +1055,18 @@ def gen_c05(rng, tier):
         for off in ("+00:00", "+0900"):
             for now in (G.NOW, 4102444800 * 2):
                 add(to, off, now, False, f"malformed to {to!r}")
-    for off in ("", "UTC", "+9", "0900", "+24:00", "-24:00", "+2400", "-2400", "+99:59", "+09:60", "Z", "+0a:00", "09:00", "+", "+09", "+09:0"):
+    for off in ("", "UTC", "+9", "0900", "+24:00", "-24:00", "+2400", "-2400", "+99:59", "+09:60", "Z", "+0a:00", "09:00", "+", "+09", "+09:0",
+                "+09:00:00", "+0900 JST", "+00:00Z", "-05:00h", "+09:00 ", "+00:00\n", "+0000+0000"):
         for now in (G.NOW, 4102444800 * 2):
             add("2000-01-01 00:00:00", off, now, False, f"malformed offset {off!r}")
+    # a seconds field of 60 (accepted as leap-second notation in any minute) denotes the second after :59: the element
+    # is ready from that second on and not at :59 itself
+    for base59 in (946684799, 1483228799, 1710041459, 951827759):     # 1999-12-31 23:59:59, 2016-12-31 23:59:59, ...
+        for om in (0, 540, -330, 765):
+            to = G.render_to(base59 + om * 60)[:-2] + "60"
+            for colon in (True, False):
+                for dn in (-1, 0, 1, 2):
+                    add(to, G.offset_str(om, colon), base59 + dn, dn >= 1, "seconds field 60 is the second after :59")
     # lenient forms chrono accepts: no expectation from the oracle, the model must agree with the code
     lenient = ["2000-1-1 0:0:0", " 2000-01-01 00:00:00", "2000-01-01  00:00:00", "2000-01-01\t00:00:00", "2000-01-01 00:00:00 ",
                "+2000-01-01 00:00:00", "-0001-01-01 00:00:00", "+12000-01-01 00:00:00", "2000- 01-01 00:00:00", "2000-01-01 00:00:60",
@@ -1116,6 +1161,10 @@ def gen_c05(rng, tier):
 
 
 def oracle_c05(line, m, impl, model):
+    if line.startswith("R "):
+        return oracle_current(line, m, impl, model)
+    if line.startswith("K "):
+        return oracle_c20(line, m, impl, model)
     if line.startswith("T "):
         return oracle_time(line, m, impl, model)
     return oracle_doc_expected(line, m, impl, model)
@@ -1203,6 +1252,16 @@ def gen_c06(rng, tier):
                                    ("y\r\nx\r\n", 'a<!-- <removal-marker name=""> -->x<!-- </removal-marker> -->bc')]):
         cases.append(kcase(f"kf{j}", "C", False, "S", "O", None, None, None, None, 0, G.NOW, None, [], cf, dsrc))
         meta[f"kf{j}"] = {"stream": "cli-config-file", "expect_stdout": exp}
+    # ... white space at the ends of a line included: a target is the whole line
+    def mk3(n):
+        return f'<!-- <removal-marker name="{n}"> -->{len(n)}<!-- </removal-marker> -->'
+    names3 = ["x ", "x", " x", "x\t"]
+    dsrc3 = "a" + "".join(mk3(n) + "." for n in names3) + "z"
+    for j, cf in enumerate(["x \n", " x\n", "x\t\n", "x  \n", "x \r\n", "x\n x", "\u00a0x\n", " \n"]):
+        tg = set(cf.replace("\r\n", "\n").split("\n")[:-1] if cf.endswith("\n") else cf.replace("\r\n", "\n").split("\n"))
+        exp = "a" + "".join(("" if n in tg else mk3(n)) + "." for n in names3) + "z"
+        cases.append(kcase(f"kw{j}", "C", False, "S", "O", None, None, None, None, 0, G.NOW, None, [], cf, dsrc3))
+        meta[f"kw{j}"] = {"stream": "cli-config-file", "expect_stdout": exp}
     # the command line given no target option: no removal-marker is removed, whatever its name
     for j, name in enumerate(["vec![]", "<!-- <", "> -->", "time-limited", "removal-marker", "+00:00", "", "x"]):
         src = f'a<!-- <removal-marker name="{name}"> -->x<!-- </removal-marker> -->b'
@@ -1716,11 +1775,140 @@ def rfc3339(now, zone_min):
     return f"{y:04d}-{mo:02d}-{d:02d}T{h:02d}:{mi:02d}:{s:02d}{G.offset_str(zone_min)}"
 
 
+def current_spelling(cid, now, zone_min):
+    """the current instant in one of the spellings the command line accepts (chosen by the case id): RFC 3339, a blank
+    for the T, the offset without colon, a blank in front of the offset, Z / UTC for offset zero"""
+    strict = rfc3339(now, zone_min)
+    k = int(hashlib.sha1(cid.encode()).hexdigest(), 16) % 8
+    date, rest = strict[:10], strict[11:]
+    tm, off = rest[:8], rest[8:]
+    if k == 1:
+        return date + " " + tm + off
+    if k == 2:
+        return date + "T" + tm + off.replace(":", "")
+    if k == 3:
+        return date + " " + tm + " " + off
+    if k == 4 and zone_min == 0:
+        return date + "T" + tm + "Z"
+    if k == 5 and zone_min == 0:
+        return date + " " + tm + " UTC"
+    return strict
+
+
+def rcase(cid, text):
+    return f"R {cid} {G.hx(text)}"
+
+
+def gen_current_texts(rng, n, prefix="r"):
+    """texts of --time-limited-current: every accepted spelling of an instant (with the instant the oracle expects),
+    the neighbouring refused ones, and random edits of both - the model of chrono's relaxed RFC 3339 reader
+    (Model/Current.v) against the implementation"""
+    cases, meta, texts = [], {}, []
+    k = 0
+    def add(text, want=None, why=""):
+        nonlocal k
+        cid = f"{prefix}{k}"
+        k += 1
+        texts.append(text)
+        cases.append(rcase(cid, text))
+        meta[cid] = {"stream": "current-text", "want_cur": want, "why": why}
+    seps = ["T", "t", " "]
+    fracs = ["", ".5", ".000", ".123456789", ".1234567891234", ".999999999"]
+    gaps = ["", " ", "  ", "\t", "\n"]
+    instants = [G.NOW, 0, -1, 946684799, 951827759, 4102444800, 253402300799, -62167219200, 1709251199]
+    for ts in instants:
+        for om in (0, 540, -330, 765, -720, 840, 1):
+            y, mo, d, h, mi, sec = G.civil(ts + om * 60)
+            if not (0 <= y <= 9999):
+                continue
+            date, tm = f"{y:04d}-{mo:02d}-{d:02d}", f"{h:02d}:{mi:02d}:{sec:02d}"
+            offs = [G.offset_str(om, True), G.offset_str(om, False)]
+            if om == 0:
+                offs += ["Z", "z", "UTC", "utc", "Utc", "-00:00", "+00 00", "\u221200:00"]
+            for off in offs:
+                sep, fr, gap = rng.choice(seps), rng.choice(fracs), rng.choice(gaps)
+                add(date + sep + tm + fr + gap + off, f"{ts}:0", "accepted spelling")
+            add(date + "T" + tm + G.offset_str(om) + rng.choice([" ", "\n", "  \t"]), f"{ts}:0", "white space behind the text")
+            add(rng.choice([" ", "\t"]) + date + "T" + tm + G.offset_str(om), f"{ts}:0", "white space in front of the text")
+            add(date + "  " + tm + G.offset_str(om), f"{ts}:0", "a blank for the T and white space in front of the hour")
+            # refused neighbours
+            for bad in (date + "T" + tm, date + tm + G.offset_str(om), date + "_" + tm + G.offset_str(om), date + "T" + tm + G.offset_str(om) + "x",
+                        date + "T" + tm + "." + G.offset_str(om), date + "T" + tm + " GMT", date + "T" + tm + "+" + f"{abs(om) // 60:02d}",
+                        date.replace("-", "/") + "T" + tm + G.offset_str(om), date + "T" + tm.replace(":", ".") + G.offset_str(om),
+                        date + "T" + tm + "UT", date + "T" + tm + "ZZ", date + "T" + tm + "Zulu", date + "T" + tm + " +24:00", date + "T" + tm + "+00:60"):
+                add(bad, "none", "refused spelling")
+    # unpadded fields, blanks between the components, signed years, leap second, field limits
+    for t in ["2001-9-9T1:46:40Z", "2001 - 09 - 09T01 : 46 : 40 Z", "+2001-09-09T01:46:40Z", "+12001-09-09T01:46:40Z", "12001-09-09T01:46:40Z",
+              "-0001-01-01T00:00:00Z", "2016-12-31T23:59:60Z", "2016-12-31T23:59:60.5+09:00", "2001-09-09T01:46:61Z", "2001-09-09T24:00:00Z",
+              "2001-09-09T01:60:00Z", "2001-13-01T00:00:00Z", "2001-02-29T00:00:00Z", "2004-02-29T00:00:00Z", "2001-09-09T01:46:40.Z",
+              "2001-09-09T01:46:40 .5Z", "2001-09-09T01:46:40. 5Z", "2001-09-09T01:46:40,5Z", "2001-09-09T01:46:40.5 Z", "", " ", "Z", "now",
+              "2001-09-09", "2001-09-09T", "2001-09-09T01:46", "2001-09-09T01:46Z", "1000000000", "2001-09-09T01:46:40+09", "2001-09-09T01:46:40+9:00",
+              "2001-09-09T01:46:40+09:0", "2001-09-09T01:46:40+0900 ", "2001-09-09T01:46:40 + 09:00", "2001-09-09T01:46:40+09::00", "2001-09-09T01:46:40+09 :00",
+              "+262142-12-31T23:59:59Z", "+262143-01-01T00:00:00Z", "-262143-01-01T00:00:00Z", "-262144-01-01T00:00:00Z", "+262142-12-31T23:59:59-00:01",
+              "-262143-01-01T00:00:00+00:01", "2001-09-09T01:46:40UTC+09:00", "2001-09-09T01:46:40 U T C", "２００１-09-09T01:46:40Z", "2001-09-09\u00a001:46:40Z",
+              "2001-09-09T\u00a001:46:40Z", "2001-09-09T01:46:40\u3000Z", "2001-09-09T01:46:40Z\u3000", "99999999999999999999-01-01T00:00:00Z"]:
+        add(t)
+    # the neighbours of every letter of Z / UTC, of the separators and of the signs
+    for z in ["TTC", "VTC", "USC", "UUC", "UTB", "UTD", "ttc", "vtc", "usc", "uuc", "utb", "utd", "Y", "[", "y", "{", "UT", "UTCC", "U", "@TC", "`tc",
+              "UtC", "uTc", "utC", "Utc"]:
+        add("2001-09-09T01:46:40" + z, "1000000000:0" if z.upper() == "UTC" else "none", "zone name")
+    for sp in ["S", "U", "s", "u", "\x1f", "!", "\t", "\n", "\u00a0"]:
+        add("2001-09-09" + sp + "01:46:40Z", "none", "separator next to T / t / blank")
+    for sg in ["*", ",", ".", "/", "\u2213", "\u2211"]:
+        add("2001-09-09T01:46:40" + sg + "09:00", "none", "sign next to + / -")
+    pool = list("0123456789") + ["-", ":", "T", "t", " ", "Z", "z", "+", ".", "UTC", "\t", "\u2212", "x", "\u3000", "00", "09", "60"]
+    base = list(texts)
+    for i in range(n):
+        t = rng.choice(base) if rng.random() < 0.8 else ""
+        t = list(t)
+        for _ in range(rng.randint(1, 3)):
+            op = rng.randrange(3)
+            pos = rng.randint(0, len(t))
+            if op == 0 and t:
+                del t[min(pos, len(t) - 1)]
+            elif op == 1:
+                t.insert(pos, rng.choice(pool))
+            elif t:
+                t[min(pos, len(t) - 1)] = rng.choice(pool)
+        add("".join(t))
+    return cases, meta
+
+
+def oracle_current(line, m, impl, model):
+    got = impl.get("cur", "MISSING")
+    if got == "PANIC":
+        return "the parse of the current instant panicked"
+    want = m.get("want_cur")
+    if want is not None and got != want:
+        return f"--time-limited-current={unhex(line.split(' ')[2]).decode('utf-8', 'replace')!r} reads as {got}, expected {want} ({m.get('why')})"
+    return None
+
+
+def cli_current_cases(prefix="kc"):
+    """the current instant handed to the binary in every accepted spelling and in several zones, against `to` values
+    that are pending at that instant but expired by the wall clock (a spelling the binary silently refuses falls
+    back to the wall clock and shows here), equal to the instant, and one second later"""
+    cases, meta = [], {}
+    k = 0
+    for to_ts, ready in ((1262304000, False), (G.NOW, True), (G.NOW + 1, False), (G.NOW - 1, True), (1700000000, False)):
+        for om, off in ((0, "+00:00"), (540, "+0900"), (-330, "-05:30")):
+            to = G.render_to(to_ts + om * 60)
+            src = f'a<!-- <time-limited to="{to}"> -->x<!-- </time-limited> -->b'
+            for zone in (0, 0, 0, 540, -480, 345, 0, 0, 60, 0, -210, 0):
+                cid = f"{prefix}{k}"
+                k += 1
+                cases.append(kcase(cid, "C", False, "S", "O", None, None, None, off, zone, G.NOW, None, [], None, src))
+                meta[cid] = {"stream": "cli-current", "expect_stdout": "ab" if ready else src}
+    return cases, meta
+
+
 def kcase(cid, mode, js, inr, outr, ds, de, tl, off, zone, now, rm, flags, cfg, src):
     def o(x):
         return "~" if x is None else G.hx(x)
     fl = ",".join(G.hx(x) for x in flags) if flags else "."
-    return f"K {cid} {mode} {int(js)} {inr} {outr} {o(ds)} {o(de)} {o(tl)} {o(off)} {zone} {now} {o(rm)} {fl} {o(cfg)} {G.hx(src)}"
+    # last field: the text handed to --time-limited-current (the model reads it with Model/Current.v's parse_current)
+    return (f"K {cid} {mode} {int(js)} {inr} {outr} {o(ds)} {o(de)} {o(tl)} {o(off)} {zone} {now} {o(rm)} {fl} {o(cfg)} {G.hx(src)} "
+            + G.hx(current_spelling(cid, int(now), int(zone))))
 
 
 def gen_c20(rng, tier):
@@ -1777,7 +1965,7 @@ def gen_c20(rng, tier):
         src = f'a<!-- <removal-marker name="{name}"> -->x<!-- </removal-marker> -->b'
         cases.append(kcase(f"d{j}", "C", False, "S", "O", None, None, None, None, 0, G.NOW, None, [], None, src))
         meta[f"d{j}"] = {"stream": "cli-defaults", "expect_stdout": src}
-    return merge((cases, meta))
+    return merge((cases, meta), cli_current_cases())
 
 
 def run_cli_cases(cases, work, tag):
@@ -1795,6 +1983,7 @@ def run_cli_cases(cases, work, tag):
         f = line.split(" ")
         cid = f[1]
         mode, js, inr, outr, ds, de, tl, off, zone, now, rm, flags, cfgf, src = f[2:16]
+        cur_text = unhex(f[16]).decode("utf-8") if len(f) > 16 else rfc3339(int(now), int(zone))
         outs = []
         for ti, tz in enumerate(TZS):
             d = os.path.join(base, f"{cid}.{ti}")
@@ -1813,7 +2002,7 @@ def run_cli_cases(cases, work, tag):
                            ("--time-limited-time-offset", off), ("--removal-marker-tag-name", rm)):
                 if v != "~":
                     argv.append(opt + "=" + unhex(v).decode("utf-8"))
-            argv.append("--time-limited-current=" + rfc3339(int(now), int(zone)))
+            argv.append("--time-limited-current=" + cur_text)
             if flags != ".":
                 for x in flags.split(","):
                     argv.append("--removal-marker-target-name=" + unhex(x).decode("utf-8"))
@@ -1857,6 +2046,8 @@ def run_cli_cases(cases, work, tag):
 
 
 def oracle_c20(line, m, impl, model):
+    if line.startswith("R "):
+        return oracle_current(line, m, impl, model)
     c = impl.get("cli", "MISSING")
     if c in ("CRASH", "MISSING", "BUILDFAIL"):
         return f"the binary {c.lower()}"
@@ -1906,8 +2097,10 @@ def differential(P, pid, cases, meta, harness, driver, tag, oracle_only=False):
         # multi-step properties (histories, metamorphic pairs) run follow-up cases
         cases, meta, impl = P["post"](cases, meta, impl, harness, work, tag)
     model = {}
+    # cases too large for the extracted model (ten million lines): implementation and oracle only
+    impl_only = {cid for cid, mm in meta.items() if isinstance(mm, dict) and mm.get("impl_only")}
     if not oracle_only:
-        model, _ = vlib.run_sharded(driver, cases, work, tag + ".model")
+        model, _ = vlib.run_sharded(driver, [c for c in cases if c.split(" ", 2)[1] not in impl_only], work, tag + ".model")
     stages = P["stages"]
     dis, fails, known = [], [], []
     known_case = {}
@@ -1926,7 +2119,7 @@ def differential(P, pid, cases, meta, harness, driver, tag, oracle_only=False):
         if not io:
             fails.append({"case": line, "meta": m, "why": "the implementation harness produced no output for this case (process died)"})
             continue
-        if not oracle_only:
+        if not oracle_only and cid not in impl_only:
             for st in stages:
                 if st in io or st in mo:
                     compared += 1
@@ -2197,15 +2390,16 @@ RULE_DOC = ("corpus (fixtures + recorded witnesses) first, then bounded-exhausti
 
 PROPS = {}
 _P = {
-    "C01": mk(lambda rng, t: merge(gen_docs(rng, t, 2500, 40000, p_mut=0.5, safe=False), gen_front(rng, "quick")),
+    "C01": mk(lambda rng, t: merge(gen_docs(rng, t, 2500, 40000, p_mut=0.5, safe=False), gen_front(rng, "quick"), big_line_number_cases()),
               ALL_DOC_STAGES, oracle_c01, "panic-freedom: every stage of every case compared incl. the PANIC outcome (dev profile, overflow checks on)", RULE_DOC,
               nontrivial_tok),
     "C02": mk(lambda rng, t: gen_docs(rng, t, p_mut=0.3), DOC_STAGES_CLEAN, oracle_c02, "no over-removal", RULE_DOC),
     "C03": mk(lambda rng, t: gen_docs(rng, t, p_mut=0.3), DOC_STAGES_CLEAN, oracle_c03, "no under-removal", RULE_DOC),
     "C04": mk(lambda rng, t: merge(gen_docs(rng, t, kinds=["pending_tl", "pending_rm", "skip", "unreg"], p_mut=0.5, safe=False),
-                                   degenerate_unwrap_cases(rng, t), nameless_marker_cases()),
+                                   degenerate_unwrap_cases(rng, t), nameless_marker_cases(), bad_offset_docs(rng, 150 if t == "quick" else 2500)),
               ["tok", "tag", "tree", "markers", "clean"], oracle_c04, "no-op identity", RULE_DOC, nontrivial_tok),
-    "C05": mk(gen_c05, ["evalt", "clean"], oracle_c05, "expiry decision", "boundary grid (±2 s around the instant, offsets −12:00…+14:00 step 15 min, both spellings), every malformed class, lenient forms, random grid; all T cases count as non-trivial", nontrivial_tok),
+    "C05": mk(lambda rng, t: merge(gen_c05(rng, t), cli_current_cases(), gen_current_texts(rng, 1500 if t == "quick" else 20000)),
+              ["evalt", "clean", "cli", "cur"], oracle_c05, "expiry decision", "boundary grid (±2 s around the instant, offsets −12:00…+14:00 step 15 min, both spellings), every malformed class, lenient forms, random grid; all T cases count as non-trivial", nontrivial_tok),
     "C06": mk(gen_c06, ["evalm", "markers", "clean", "tag", "cli"], oracle_c06, "marker and skip decision", "name/target pool products, attribute permutations, tag-name configurations, AST documents", nontrivial_tok),
     "C07": mk(gen_front, ["tok"], oracle_c07, "lossless partition", RULE_DOC, nontrivial_tok),
     "C08": mk(gen_front, ["tok"], oracle_c08, "leftmost-shortest recognition", RULE_DOC, nontrivial_tok),
@@ -2216,7 +2410,7 @@ _P = {
     "C13": mk(gen_c13, ["seam", "seam4", "find", "clean", "removed"], oracle_c13, "block-style removal", RULE_DOC, nontrivial_tok),
     "C14": mk(lambda rng, t: merge(gen_docs(rng, t, p_mut=0.3), gen_c11(rng, "quick")), DOC_STAGES_CLEAN, oracle_c14, "whitespace confined", RULE_DOC),
     "C15": mk(lambda rng, t: gen_docs(rng, t, p_mut=0.1), ["markers", "list_json", "list_pretty", "clean"], oracle_c15, "list = clean regions", RULE_DOC),
-    "C16": mk(lambda rng, t: gen_docs(rng, t, p_mut=0.2), ["list_json", "list_pretty", "lista_json", "lista_pretty"], oracle_c16, "list rendering", RULE_DOC),
+    "C16": mk(lambda rng, t: merge(gen_docs(rng, t, p_mut=0.2), big_line_number_cases()), ["list_json", "list_pretty", "lista_json", "lista_pretty"], oracle_c16, "list rendering", RULE_DOC),
     "C17": mk(lambda rng, t: merge(gen_docs(rng, t, p_mut=0.1, kinds=["ready_tl", "pending_tl", "pending_tl", "pending_rm", "ready_rm", "skip"]),
                                    wrapper_tag_cases(rng, 300 if t == "quick" else 3000)),
               ["markers_all", "markers", "lista_json", "list_json"], oracle_c17, "list_all merge", RULE_DOC),
@@ -2225,6 +2419,6 @@ _P = {
 }
 
 PROPS.update(_P)
-PROPS["C20"] = mk(gen_c20, ["cli"], oracle_c20, "CLI wrapper", "AST documents x option combinations (input route, output route incl. --output = input file, mode, explicit/default delimiters, tag names, offset, current time spelled in several zones, targets via flags / file / both), each run under TZ in {UTC, Asia/Tokyo, America/Los_Angeles, unset}; equivalence groups of the same document through every route; default-string probes", nontrivial_tok)
+PROPS["C20"] = mk(lambda rng, t: merge(gen_c20(rng, t), gen_current_texts(rng, 1500 if t == "quick" else 20000)), ["cli", "cur"], oracle_c20, "CLI wrapper", "AST documents x option combinations (input route, output route incl. --output = input file, mode, explicit/default delimiters, tag names, offset, current time spelled in several zones, targets via flags / file / both), each run under TZ in {UTC, Asia/Tokyo, America/Los_Angeles, unset}; equivalence groups of the same document through every route; default-string probes", nontrivial_tok)
 PROPS["C20"]["pair_check"] = pair_check_c20
 PROPS["C18"]["pair_check"] = pair_check_c18
